@@ -6,6 +6,7 @@ import (
 	"fmt"
 	"os"
 	"os/exec"
+	"reflect"
 	"regexp"
 	"sort"
 	"strconv"
@@ -117,7 +118,7 @@ func judgeC09(c *core.Case, cfg *core.Config) core.Verdict {
 	sampleBefore := core.Show(sample)
 	var dumps []string
 	var errs []string
-	var prog *vm.Program
+	var prog, twin *vm.Program
 	for i := 0; i < 3; i++ {
 		p, err := compile(c.Source, c09Options(c, sample)...)
 		if err != nil {
@@ -126,7 +127,7 @@ func judgeC09(c *core.Case, cfg *core.Config) core.Verdict {
 		} else {
 			errs = append(errs, "")
 			dumps = append(dumps, dumpProgram(p))
-			prog = p
+			prog, twin = p, prog // twin: an earlier compilation that is never run
 		}
 		// other compilations in between: same source against the other representations of the environment
 		var l1 []string
@@ -167,6 +168,9 @@ func judgeC09(c *core.Case, cfg *core.Config) core.Verdict {
 	vm.MemoryBudget = []int{40, 80, 300, 1000000}[len(c.Source)%4]
 	defer func() { vm.MemoryBudget = savedBudget }()
 	progBefore := dumps[0]
+	// the twin is never run: whatever a run leaves behind in the program (also in parts the dump does not print)
+	// makes the two differ under reflect.DeepEqual
+	twinEqual := twin != nil && deepEqualSafe(prog, twin)
 	mkEnv := func() (interface{}, *core.Env) {
 		var l []string
 		e := spec.Build(&l)
@@ -216,6 +220,10 @@ func judgeC09(c *core.Case, cfg *core.Config) core.Verdict {
 		v.Violation = "the second run modified the program"
 		return v
 	}
+	if twinEqual && !deepEqualSafe(prog, twin) {
+		v.Violation = fmt.Sprintf("after two runs (first: %s) the program is no longer deeply equal to a twin compiled from the same source that was never run", runOut{out1, err1, nil})
+		return v
+	}
 	// and again on one long-lived VM that has run (and failed) many other programs before
 	env3, _ := mkEnv()
 	out3, err3 := vmRun(c09Shared, prog, env3)
@@ -251,6 +259,15 @@ func judgeC09(c *core.Case, cfg *core.Config) core.Verdict {
 	}
 	v.NonTriv = err1 == nil && (hasAgg || reads)
 	return v
+}
+
+func deepEqualSafe(a, b interface{}) (eq bool) {
+	defer func() {
+		if recover() != nil {
+			eq = false
+		}
+	}()
+	return reflect.DeepEqual(a, b)
 }
 
 func clip(s string) string {
